@@ -524,7 +524,7 @@ class CentrallyBin(Factory, Container):
                         if binpair["center"] in ("nan", "inf", "-inf") or isinstance(binpair["center"], numbers.Real):
                             center = float(binpair["center"])
                         else:
-                            JsonFormatException(
+                            raise JsonFormatException(
                                 binpair["center"],
                                 f"CentrallyBin.bins {i} center",
                             )
